@@ -52,12 +52,12 @@ def run(ctx):
         name, i, over = job
         tag = name.replace('Predicate.', '').replace('.cfg', '') + f'-{i}'
         try:
-            results[job[:2]] = ctx.tlc('Predicate', _cfg_text(ctx, name, over), workers=2, timeout=1500, dump=True, tag=tag,
+            results[job[:2]] = ctx.tlc('Predicate', _cfg_text(ctx, name, over), workers=1, timeout=3000, dump=True, tag=tag,
                                        heap='3g', count=False)
         except Exception as e:  # noqa
             results[job[:2]] = e
 
-    par = 6
+    par = max(1, vlib.NCPU // 2)
     pending = list(jobs)
     while pending:
         batch, pending = pending[:par], pending[par:]
@@ -97,7 +97,7 @@ def run(ctx):
     # 1. every pair through Matches, under `nconc` concretisations of the two letters (escape symbols are fixed)
     nconc = 1 if ctx.tier == 'quick' else 3
     for k in range(nconc):
-        res, lines = ctx.replay(binary, cases, procs=8, timeout=1200, args={'letters': ctx.seed + k})
+        res, lines = ctx.replay(binary, cases, procs=vlib.NCPU, timeout=6000, case_timeout='1500s', args={'letters': ctx.seed + k})
         ctx.absorb(res, lines)
     # 2. end to end: for a sample of predicates, all series TLC paired with that predicate in one real store
     keys = sorted(groups)
@@ -119,7 +119,7 @@ def run(ctx):
             series.append({'meas': c['meas'], 'tags': c['tags'], 'want': c['want'], 'impl': c['impl'], 'key': c['key']})
         e2e.append({'mode': 'e2e', 'pred': g[0]['pred'], 'series': series})
     if e2e:
-        res2, lines2 = ctx.replay(binary, e2e, procs=8, timeout=1200, args={'letters': ctx.seed})
+        res2, lines2 = ctx.replay(binary, e2e, procs=vlib.NCPU, timeout=6000, case_timeout='1500s', args={'letters': ctx.seed})
         ctx.absorb(res2, lines2)
     ctx.exhaustive = True
     ctx.extra_cov['pairs_per_config'] = per_cfg
